@@ -74,8 +74,6 @@ def judge_triple(ctx, case):
         bad.append(("bip85", None, "present"))
     if bool(V.testnet) != tn:
         bad.append(("testnet", tn, V.testnet))
-    if type(V.master).__name__ != "PubKeyNode":
-        bad.append(("master_class", "PubKeyNode", type(V.master).__name__))
     ctx.judge("no_private", not bad, case, None, bad, cls="flags|" + cls_base, mech="C14.flags." + (bad[0][0] if bad else ""))
     # ---- public data below E
     for sub in case["subpaths"]:
